@@ -140,10 +140,26 @@ func (ds *dataStore) reenterListBlock(ws *wakeSignal, keyNames []string) {
 	ds.waitingClients.reenterWait(ws, keyNames)
 }
 
-func (ds *dataStore) leaveListBlock(ws *wakeSignal) {
+// The client stops waiting. If a wake-up was delivered to it that it never acted on (it left
+// because of its timeout or an unblock request at the same moment), the wake-up belongs to the
+// next client waiting for those keys - or the pushed element would sit in the list with clients
+// still blocked on it.
+func (ds *dataStore) leaveListBlock(ws *wakeSignal, keyNames []string) {
 	ds.mu.Lock()
 	defer ds.mu.Unlock()
+
+	unused := false
+	select {
+	case <-ws.ready:
+		unused = true
+	default:
+	}
 	ds.waitingClients.disposeWakeSignal(ws)
+	if unused {
+		for _, keyName := range keyNames {
+			ds.waitingClients.unblock(keyName, 1)
+		}
+	}
 }
 
 func (ds *dataStore) unblockListUnlocked(keyName string, elements int) {
